@@ -164,7 +164,7 @@ let check (case : Sexp.t) : unit =
      | SOk _, _ -> result id "VIOL" "outcome" (Printf.sprintf "from_poly: %s on valid arguments" oc)
      | SErr, "err" | SPanic, "panic" -> bump "rejected_both"; result id "OK" "rejected" ""
      | _, _ -> bump "mirror_mismatch"; result id "MIRROR" "outcome" ("from_poly: model and implementation reject/accept differently: " ^ oc))
-  | List [Atom "case"; Atom id; Atom "slice"; st; sr; sm; Atom oc; _scomp; sres; pts] ->
+  | List [Atom "case"; Atom id; Atom "slice"; st; sr; sm; Atom oc; scomp; sres; pts] ->
     bump "slice";
     with_tree ~id st (fun it tt ->
       let n = it.in_dim in
@@ -173,7 +173,18 @@ let check (case : Sexp.t) : unit =
       if k = 0 then bump "slice_all_fixed";
       if k = n then bump "slice_none_fixed";
       if not (wfb (nat_of_int n) tt) || List.length r <> n then result id "ERR" "gen" "subject tree is not well-formed"
-      else
+      else begin
+        (* diagnostic only: the intermediate tree from_slice(r).compose(t) on R^n against the model's; remove_axes
+           evaluates dropped coordinates at 0, so a difference here need not show in the restriction (C16 owns slice) *)
+        (match scomp with
+         | Atom _ -> ()
+         | _ -> (match ptree_of (itree_of scomp) with
+             | Some tc ->
+               (match tree_equiv (nat_of_int n) [] tc (compose (from_slice r) tt) with
+                | Equal -> bump "from_slice_agree"
+                | _ -> bump "mirror_mismatch";
+                  result id "MIRROR" "from_slice" "from_slice(r).compose(t) differs from the model's composition before remove_axes")
+             | None -> ()));
         match remove_axes (nat_of_int n) mask (compose (from_slice r) tt), oc with
         | SOk model, "ok" ->
           with_tree ~id sres (fun ih th ->
@@ -186,7 +197,8 @@ let check (case : Sexp.t) : unit =
         | SOk _, _ -> result id "VIOL" "outcome"
                         (Printf.sprintf "slice: remove_axes answered %s for a mask of the right length (%d of %d axes kept)" oc k n)
         | SErr, "err" | SPanic, "panic" -> bump "rejected_both"; result id "OK" "rejected" ""
-        | _, _ -> bump "mirror_mismatch"; result id "MIRROR" "outcome" ("slice: model and implementation reject/accept differently: " ^ oc))
+        | _, _ -> bump "mirror_mismatch"; result id "MIRROR" "outcome" ("slice: model and implementation reject/accept differently: " ^ oc)
+      end)
   | List [Atom "case"; Atom id; Atom "remove_axes"; st; sm; Atom oc; sres; pts] ->
     bump "remove_axes";
     with_tree ~id st (fun it tt ->
